@@ -532,8 +532,9 @@ def _wrap(run, P):
         ok = False
         for n in ast.walk(w.node):
             if isinstance(n, ast.If) and norm(n.test) == "stmt.condition is not True":
-                b = ast.unparse(n.body[0]) if n.body else ""
-                ok = b.startswith("return IfThen(stmt.condition, StatementWrapper(stmt.copy(condition=True)))")
+                from ..engine.match import leaves_with
+                ok = leaves_with(n.body, ast.Return,
+                                 "IfThen(stmt.condition, StatementWrapper(stmt.copy(condition=True)))")
         run.ob("C07.guard", w, w.node, ok,
                construct="condition is not True -> IfThen(condition, wrapper(copy(condition=True)))",
                why="the guard must be expressed in the AST exactly once")
